@@ -115,7 +115,7 @@ let tree_cmd (toks : string list) : string option =
         | "li" :: g :: i :: r ->
             let grp = List.nth t.t_pgroups (int_of_string g) in
             Buffer.add_string b (" || " ^ opt_z (pg_find grp (z_of_string i))); skip r
-        | ("data" | "zero") :: r -> Buffer.add_string b " || -"; skip r   (* decided by the oracle, not the model *)
+        | ("data" | "zero" | "cv") :: r -> Buffer.add_string b " || -"; skip r   (* decided by the oracle, not the model *)
         | x :: _ -> Buffer.add_string b (" || ?query " ^ x)
       and skip r = match r with "|" :: r' -> go r' | [] -> () | x :: _ -> Buffer.add_string b (" || ?syntax " ^ x) in
       go queries;
@@ -165,7 +165,58 @@ let exec_cmd (toks : string list) : string option =
        | [] -> None)
   | _ -> None
 
-let handlers : (string list -> string option) list ref = ref [index_cmd; tree_cmd; exec_cmd]
+(* ---- memory block commands ---- *)
+let parse_kind (s : string) : bkind =
+  match String.split_on_char ':' s with
+  | ["S"; sz] -> Scalar (z_of_string sz)
+  | ["V"; sz] -> Vector (z_of_string sz)
+  | ["R"; sz; rows] -> MultiR (z_of_string sz, z_of_string rows)
+  | ["C"; sz; rows] -> MultiV (z_of_string sz, z_of_string rows)
+  | _ -> failwith "kind"
+
+let z64 = iz 64
+
+let acc_string (ks : bkind list) (items : z list) (offs : z list) : string =
+  let b = Buffer.create 64 in
+  List.iteri (fun bi k ->
+    let n = zi (List.nth items bi) in
+    let off = List.nth offs bi in
+    let rows = zi (rows_of k) in
+    let emit i r = Buffer.add_string b (Printf.sprintf " %d:%d:%d:%s" bi i r (zs (elem_offset z64 k off (iz n) (iz i) (iz r)))) in
+    (match k with
+     | Scalar _ -> emit 0 0
+     | Vector _ -> List.iter (fun i -> if i >= 0 && i < n then emit i 0) [0; n/2; n-1]
+     | _ -> List.iter (fun i -> List.iter (fun r -> if i >= 0 && i < n then emit i r) [0; rows-1]) [0; n/2; n-1])) ks;
+  Buffer.contents b
+
+let mem_cmd (toks : string list) : string option =
+  match toks with
+  | "mem" :: _id :: nb :: rest ->
+      let nb = int_of_string nb in
+      let ks = List.map parse_kind (take nb rest) in
+      let ops = drop nb rest in
+      let st = ref mb_empty in
+      let outs = ref [] in
+      let rec go ops =
+        match ops with
+        | [] -> ()
+        | "R" :: r ->
+            let sizes = List.map z_of_string (take nb r) in
+            st := reset z64 ks !st sizes;
+            let (items, offs) = init_header ks !st in
+            outs := (Printf.sprintf "alloc=%s trailer=%s acc=%s" (zs !st.mb_alloc)
+                       (String.concat "," (List.map zs (offs @ items))) (acc_string ks sizes (offsets z64 ks sizes))) :: !outs;
+            go (drop nb r)
+        | ("M" | "A") :: r -> outs := ("moved alloc=" ^ zs !st.mb_alloc) :: !outs; go r
+        | "V" :: r ->
+            let (items, offs) = init_header ks !st in
+            outs := (Printf.sprintf "view acc=%s same=1" (acc_string ks items offs)) :: !outs; go r
+        | x :: _ -> outs := ("?op " ^ x) :: !outs in
+      go ops;
+      Some (String.concat " || " (List.rev !outs))
+  | _ -> None
+
+let handlers : (string list -> string option) list ref = ref [index_cmd; tree_cmd; exec_cmd; mem_cmd]
 
 let () =
   let ic = open_in Sys.argv.(1) in
